@@ -278,6 +278,8 @@ class _Padded:
     bounds="3 frames, payload <= 2, padding in {0,1,5}",
     outside="transfers large enough to exhaust the 16 MiB credit (thorough: one concrete long download)",
     stubs=("calls crossing into the client's h2 state are observed at the native boundary (verif.native.CALL_HOOK)",),
+    also=("C12",),
+    per_prop={"C12": {"quick": [{"flavour": "sync"}], "thorough": [{"flavour": "sync"}, {"flavour": "async"}]}},
 )
 def credit_return(n0: int, p0: int, n1: int, p1: int, n2: int, p2: int, cut: int) -> None:
     """
@@ -317,8 +319,11 @@ def credit_return(n0: int, p0: int, n1: int, p1: int, n2: int, p2: int, cut: int
             P.cover("padded")
         P.check(len(acks) == len(datas), "one-acknowledgement-per-DATA-event", lambda: f"{sig}:acks={len(acks)}:datas={len(datas)}")
         for (sid, fl, _ln), (asid, amount) in zip(datas, acks):
-            P.check(asid == sid and amount == fl, "credit-returned=flow-controlled-length",
-                    lambda: f"{sig}:ack={amount}:flow-controlled={fl}")
+            # (C12 view: the connection-level window is shared by all streams - credit that is not returned for one
+            # stream's frames, padding included, eventually starves every other stream of the connection)
+            for prop in ("C13", "C12"):
+                P.check(asid == sid and amount == fl, "credit-returned=flow-controlled-length",
+                        lambda: f"{sig}:ack={amount}:flow-controlled={fl}", prop=prop)
         if acks:
             P.cover("acknowledged")
 
